@@ -12,6 +12,7 @@ import (
 	"runtime/debug"
 	"strings"
 	"sync/atomic"
+	"syscall"
 	"time"
 
 	"verifsim/core"
@@ -62,6 +63,8 @@ type ReplayFile struct {
 	Trace    []string        `json:"trace,omitempty"`
 	Note     string          `json:"note,omitempty"`
 }
+
+var mirrorBuf []byte
 
 var current atomic.Int64
 var currentStart atomic.Int64
@@ -141,6 +144,7 @@ func main() {
 		watchdog = flag.Int("watchdog", 120, "seconds a single run may take before the worker exits 67")
 		budget   = flag.Int("budget", 400, "shrink budget (executions)")
 		known    = flag.String("known", "", "known-findings file: listed (status known) divergences are counted and resynchronised instead of ending the run")
+		tapemap  = flag.String("tapemap", "", "with -replay: mirror every draw into this memory-mapped file (survives a crash)")
 		dump     = flag.String("dump", "", "debug: write the tape and trace of every run to <dump>-<idx>.json")
 	)
 	flag.Parse()
@@ -184,6 +188,16 @@ func main() {
 	}()
 
 	if *replay != "" {
+		if *tapemap != "" {
+			f, err := os.OpenFile(*tapemap, os.O_RDWR|os.O_CREATE|os.O_TRUNC, 0o644)
+			if err == nil {
+				const size = 8 << 20
+				f.Truncate(size)
+				if m, err := syscall.Mmap(int(f.Fd()), 0, size, syscall.PROT_READ|syscall.PROT_WRITE, syscall.MAP_SHARED); err == nil {
+					mirrorBuf = m
+				}
+			}
+		}
 		doReplay(p, *replay, *shrink, *out, *budget)
 		return
 	}
@@ -302,6 +316,9 @@ func runTape(p *core.Property, rf *ReplayFile, tp []uint32, trace bool) *core.Ru
 		// a run whose worker process died has no recorded tape: its tape is a
 		// pure function of (seed, property, run index)
 		tpe = tape.New(tape.Mix(rf.Seed, p.ID, rf.Index))
+	}
+	if mirrorBuf != nil {
+		tpe.Mirror(mirrorBuf)
 	}
 	r := core.NewRun(tpe, rf.Tier, rf.Index, rf.Seed)
 	if len(rf.Tape) == 0 && len(rf.Scenario) > 0 {
